@@ -202,7 +202,7 @@ Lemma max_len_pos ts : forallb (fun t => match tk_demand t with Some (_ :: _) =>
   (0 < max_len ts)%nat.
 Proof.
   induction ts as [|t ts IH]; cbn; [discriminate|]. fold (max_len ts). unfold demand_vec.
-  destruct (tk_demand t) as [[|x v]|]; cbn; intros H; try lia; specialize (IH H); lia.
+  destruct (tk_demand t) as [[|x v]|]; cbn; intros H; try lia; apply IH in H; lia.
 Qed.
 
 Lemma k7_jobs d : k7_over8 d = false -> forall j, In j (d_jobs d) -> forall t, In t (all_tasks j) -> task_over8 t = false.
